@@ -78,7 +78,7 @@ static void e_apply(void *obj,int b,const opdef *op,obs_t *o){
       if (g_kid==KE_ENC) n=opus_encode(obj,g_pcm[b][idx],fsz,out,g_outcap);
       else if (g_kid==KE_PROJ) n=opus_projection_encode(obj,g_pcm[b][idx],fsz,out,g_outcap);
       else n=opus_multistream_encode(obj,g_pcm[b][idx],fsz,out,g_outcap);
-      o->ret=n; if(n>0){ o->outlen=n; o->outh=mc_hash(out,n,5); }
+      o->ret=n; if(n>0){ check_out_init(out,n,"packet"); o->outlen=n; o->outh=mc_hash(out,n,5); }
       free(out);
    } else if (op->type==OP_SET){
       int r=e_ctl_i(obj,op->a,op->b); if (r==OPUS_OK && op->c) r=e_ctl_i(obj,op->c,op->d); o->ret=r;
@@ -93,7 +93,7 @@ static const char *const EG_NAME[]={"APPLICATION","BITRATE","FORCE_CHANNELS","MA
 #define EG_N 20
 static void e_getters(void *obj,int b,obs_t *o){
    int i; (void)b;
-   for(i=0;i<EG_N;i++){ opus_uint32 v=0x5EEDBEEF; o->gret[i]=e_ctl_p(obj,EG_REQ[i],&v); o->gval[i]=o->gret[i]==OPUS_OK?v:0; }
+   for(i=0;i<EG_N;i++){ opus_uint32 v=0x5EEDBEEF; o->gret[i]=e_ctl_p(obj,EG_REQ[i],&v); check_out_init(&v,sizeof v,EG_NAME[i]); o->gval[i]=o->gret[i]==OPUS_OK?v:0; }
 }
 
 /* sub-encoder offsets inside an object (for the white-box cause naming) */
@@ -107,8 +107,9 @@ static void find_subs(int b){
    free(blk);
 }
 /* Counterfactual naming of a reset failure: if copying ONLY the named field(s) from the fresh image into the reset image
- * makes the whole suffix indistinguishable from the fresh object, that field is the cause.  Oracle unaffected. */
-static const char *e_classify(int b,const unsigned char *rimg,const unsigned char *fimg,const int *path,int np,const obs_t *fobs){
+ * makes the whole suffix indistinguishable from the fresh object (apart from getter components that were already stale right
+ * after the reset and are reported on their own), that field is the cause.  Oracle unaffected. */
+static const char *e_classify(int b,const unsigned char *rimg,const unsigned char *fimg,const int *path,int np,const obs_t *fobs,uint64_t stale){
    static const char *const names[4]={NULL,"LBRR_coded","voice_ratio","LBRR_coded+voice_ratio"};
    int fix; unsigned char *img=malloc(X.n); const char *res=NULL;
    for(fix=1;fix<=3&&!res;fix++){ int s,i,same=1;
@@ -116,13 +117,13 @@ static const char *e_classify(int b,const unsigned char *rimg,const unsigned cha
       for(s=0;s<g_nsub[b];s++){ long so=g_suboff[b][s];
          if (fix&1) memcpy(img+so+c12_off_lbrr_coded,fimg+so+c12_off_lbrr_coded,sizeof(int));
          if (fix&2) memcpy(img+so+c12_off_voice_ratio,fimg+so+c12_off_voice_ratio,sizeof(int)); }
-      for(i=0;i<np&&same;i++){ obs_t o; run_on(&X.A,i==0?img:NULL,path[i],&o,NULL,0x11); if (obs_diff(&o,&fobs[i])) same=0; }
+      for(i=0;i<np&&same;i++){ obs_t o; run_on(&X.A,i==0?img:NULL,path[i],&o,NULL,0x11); if (obs_diff(&o,&fobs[i])&~stale) same=0; }
       if (same) res=names[fix];
    }
    free(img); return res;
 }
 
-static kind_t KIND_E={ "encoder",0,eb_name,e_size,e_init,e_create,e_destroy,e_apply,e_getters,EG_NAME,EG_N,e_classify };
+static kind_t KIND_E={ "encoder",0,eb_name,e_size,e_init,e_create,e_destroy,e_apply,e_getters,EG_NAME,EG_N,e_classify,14 };
 
 static void add_op(const char *name,int type,int a,int b,int c,int d){ opdef *o=&OPS[NOPS++]; snprintf(o->name,sizeof o->name,"%s",name); o->type=type; o->a=a; o->b=b; o->c=c; o->d=d; }
 static void add_enc(int fam,int dur_x10){ char nm[56]; snprintf(nm,sizeof nm,"encode(%s,%g ms)",sig_name[fam],dur_x10/10.0); add_op(nm,OP_IO,fam,dur_x10,0,0); }
@@ -130,6 +131,7 @@ static void add_enc(int fam,int dur_x10){ char nm[56]; snprintf(nm,sizeof nm,"en
 int main(int argc,char **argv){
    const char *kind; int alpha,i,b; const char *bases;
    mc_init(argc,argv,"C12","enc");
+   engine_replay_outdir();
    kind=mc_arg_s("--kind","enc"); MC.part=mc_arg_s("--part",kind);
    alpha=(int)mc_arg("--alpha",MC.tier?1:0);
    if (!strcmp(kind,"enc")){ g_kid=KE_ENC; EB=EB_ENC; NEB=sizeof EB_ENC/sizeof EB_ENC[0]; KIND_E.name="encoder"; }
